@@ -9,8 +9,9 @@
    tables, _check_solvent, the Species energy look-ups, np.argmin, switch/save/load. *)
 From Coq Require Import ZArith QArith Qcanon List String Ascii Bool.
 From AV.lib Require Import QcInst.
-From AV.C06 Require Import Base Model.
-From AV.gen Require Import C06_Gen C05_Gen.
+From AV.C06 Require Import Base.
+From AV.C05 Require Import Units.
+From AV.gen Require Import C05_Units_Gen C05_Gen.
 From AV.C05 Require Import Base.
 Import ListNotations.
 Open Scope string_scope.
@@ -85,9 +86,12 @@ Definition delta_kind (s : string) : option (ekind * bool) :=
 
 (* ================================================================== species *)
 (* classes of the entries of Species.energies that matter here *)
-Inductive ecls := EPot | EHcont | EGcont | EOther.
+Inductive ecls := EPot | EHcont | EGcont | EBase | EEnth | EFreeE.   (* EBase: the bare class Energy *)
 Definition ecls_eqb (a b : ecls) : bool :=
-  match a, b with EPot, EPot | EHcont, EHcont | EGcont, EGcont | EOther, EOther => true | _, _ => false end.
+  match a, b with
+  | EPot, EPot | EHcont, EHcont | EGcont, EGcont | EBase, EBase | EEnth, EEnth | EFreeE, EFreeE => true
+  | _, _ => false
+  end.
 Record entry := mkE { ecl : ecls; ex : Qc; eu : unit }.
 (* solvents are identified by an index into a pool of pairwise different solvents *)
 Record species := mkS { s_natoms : Z; s_charge : Z; s_mult : Z; s_solvent : option nat;
@@ -123,6 +127,60 @@ Definition target_u : unit := unit_of_alias target_unit.
 Definition default_u : unit := unit_of_alias "ha".     (* Energy.__init__(units=ha) *)
 (* getattr(mol, e_type).to('Ha') *)
 Definition to_target (v : quantity) : Qc := conv (fst v) (snd v) target_u.
+
+(* ================================================================== supplying energies *)
+(* Energy.__eq__ (values.py:342-359): a == b is False unless isinstance(b, a.__class__) (every energy
+   class derives directly from Energy), else |b.to('Ha') - a.to('Ha')| < tol_ha *)
+Definition cls_accepts (a b : ecls) : bool := match a with EBase => true | _ => ecls_eqb a b end.
+Definition entry_default (e : entry) : Qc := conv (ex e) (eu e) default_u.
+Definition energy_eqb (a b : entry) : bool :=
+  cls_accepts (ecl a) (ecl b) && Qcltb (Qcabs (entry_default b - entry_default a)%Qc) energy_eq_tol.
+Fixpoint find_index {A} (f : A -> bool) (l : list A) : option nat :=
+  match l with
+  | [] => None
+  | x :: r => if f x then Some 0%nat else option_map S (find_index f r)
+  end.
+Fixpoint remove_nth {A} (i : nat) (l : list A) : list A :=
+  match l, i with
+  | [], _ => []
+  | _ :: r, O => r
+  | x :: r, S j => x :: remove_nth j r
+  end.
+(* Energies.append (values.py:428-446): the first item equal to the new energy is looked up again by
+   self.index(item) (first x with x == item), popped, and the new energy goes to the end *)
+Definition energies_append (other : entry) (l : list entry) : list entry :=
+  match find (energy_eqb other) l with
+  | None => l ++ [other]
+  | Some item => match find_index (fun x => energy_eqb x item) l with
+                 | Some i => remove_nth i l ++ [other]
+                 | None => l ++ [other]
+                 end
+  end.
+(* what is assigned to Species.energy (species.py:666-684) *)
+Inductive supplied := SNone | SNumber (x : Qc) | SEnergy (c : ecls) (x : Qc) (u : unit).
+(* the entry the setter appends.  setter_mode is GENERATED from the setter's branches:
+   0 = any Energy that is not a PotentialEnergy is cast by PotentialEnergy(float(value)): its unit is DROPPED;
+   1 = such an Energy keeps its unit; 2 = it is converted to the default unit first *)
+Definition supplied_entry_m (mode : nat) (v : supplied) : option entry :=
+  match v with
+  | SNone => None
+  | SNumber x => Some (mkE EPot x default_u)               (* float / str: assumed Hartree *)
+  | SEnergy EPot x u => Some (mkE EPot x u)
+  | SEnergy _ x u => Some (match mode with
+                           | O => mkE EPot x default_u
+                           | S O => mkE EPot x u
+                           | _ => mkE EPot (conv x u default_u) default_u
+                           end)
+  end.
+Definition set_energy_m (mode : nat) (v : supplied) (s : species) : species :=
+  match supplied_entry_m mode v with
+  | None => s
+  | Some e => mkS (s_natoms s) (s_charge s) (s_mult s) (s_solvent s) (energies_append e (s_energies s))
+  end.
+Definition supply_m (mode : nat) (s : species) (vs : list supplied) : species :=
+  fold_left (fun acc v => set_energy_m mode v acc) vs s.
+Definition set_energy := set_energy_m setter_mode.
+Definition supply := supply_m setter_mode.
 
 (* ================================================================== delta  (reaction.py:396-483) *)
 Inductive dres :=
@@ -339,27 +397,53 @@ Definition checkpoint := reaction.
 Definition save (r : reaction) : checkpoint := r.
 Definition load (c : checkpoint) (r : reaction) : reaction :=
   mkR (reacs c) (prods c) (tss c) (rtype c) (rsolvent c) (rcharge c).
-(* utils.checkpoint_rxn_profile_step (utils.py:650-684): `file` = the checkpoint on disk, if any *)
-Definition ckpt_step (file : option checkpoint) (elapsed : Qc) (f : reaction -> reaction) (r : reaction)
-  : reaction * option checkpoint :=
+(* utils.checkpoint_rxn_profile_step (utils.py:662-696): `file` = the checkpoint on disk, if any;
+   `raises`: the wrapped step raised (the exception propagates out of `result = func(reaction)`,
+   nothing is written, the reaction keeps whatever the step did to it before failing) *)
+Definition ckpt_step (file : option checkpoint) (elapsed : Qc) (raises : bool) (f : reaction -> reaction)
+  (r : reaction) : reaction * option checkpoint :=
   match file with
   | Some c => (load c r, file)
   | None => let r' := f r in
-            if Qcltb elapsed checkpoint_min_seconds then (r', None) else (r', Some (save r'))
+            if raises then (r', None)
+            else if Qcltb elapsed checkpoint_min_seconds then (r', None) else (r', Some (save r'))
   end.
+(* the file is looked up by name: checkpoints/<str(reaction)>_<step name>.chk *)
+Fixpoint lookup_ckpt (k : string) (store : list (string * checkpoint)) : option checkpoint :=
+  match store with [] => None | (k', c) :: t => if String.eqb k k' then Some c else lookup_ckpt k t end.
+Definition ckpt_keyed (store : list (string * checkpoint)) (key : string) (elapsed : Qc) (raises : bool)
+  (f : reaction -> reaction) (r : reaction) : reaction * list (string * checkpoint) :=
+  let res := ckpt_step (lookup_ckpt key store) elapsed raises f r in
+  (fst res, match lookup_ckpt key store, snd res with None, Some c => (key, c) :: store | _, _ => store end).
 
 (* Reaction.ts setter (reaction.py:579-597): self.tss.clear() FIRST, then None -> nothing more,
-   a TransitionState -> appended (so it is the only one).  rxn.tss.append(t) adds one more. *)
+   a TransitionState -> appended (so it is the only one), anything else -> ValueError (the list is
+   already empty by then).  rxn.tss.append(t) adds one more.  OUpd: the energies of a species the
+   reaction holds are replaced IN PLACE (e.g. a single point on a TS); nothing is cached anywhere. *)
 Definition set_tss (r : reaction) (l : list species) : reaction :=
   mkR (reacs r) (prods r) l (rtype r) (rsolvent r) (rcharge r).
-Inductive op := OSwitch | OSaveLoad | OSetTS (t : option species) | OAppendTS (t : species).
+Definition with_energies (es : list entry) (m : species) : species :=
+  mkS (s_natoms m) (s_charge m) (s_mult m) (s_solvent m) es.
+Fixpoint upd_nth (i : nat) (es : list entry) (l : list species) : list species :=
+  match l, i with
+  | [], _ => []
+  | m :: r, O => with_energies es m :: r
+  | m :: r, S j => m :: upd_nth j es r
+  end.
+Inductive op :=
+| OSwitch | OSaveLoad | OSetTS (t : option species) | OSetTSInvalid | OAppendTS (t : species)
+| OUpd (which i : nat) (es : list entry).        (* which: 0 reactants, 1 products, otherwise tss *)
 Definition run_op (o : op) (r : reaction) : reaction :=
   match o with
   | OSwitch => switch r
   | OSaveLoad => load (save r) (mkR [] [] [] None None 0%Z)
   | OSetTS None => set_tss r []
   | OSetTS (Some t) => set_tss r [t]
+  | OSetTSInvalid => set_tss r []
   | OAppendTS t => set_tss r (tss r ++ [t])
+  | OUpd 0 i es => mkR (upd_nth i es (reacs r)) (prods r) (tss r) (rtype r) (rsolvent r) (rcharge r)
+  | OUpd 1 i es => mkR (reacs r) (upd_nth i es (prods r)) (tss r) (rtype r) (rsolvent r) (rcharge r)
+  | OUpd _ i es => set_tss r (upd_nth i es (tss r))
   end.
 Definition run_ops (ops : list op) (r : reaction) : reaction := fold_left (fun acc o => run_op o acc) ops r.
 (* is_barrierless: self.ts is None *)
